@@ -412,7 +412,71 @@ pub fn run(args: &[String]) -> i32 {
         );
         merge(&mut rep, "structural_constructs", accs, &stats, json!({"constructs": STRUCTURAL, "skip_states": 3, "languages": 6}));
     }
+    // the fold over several files (the real `AddAssign` for ParsedData), every position of the offending file(s)
+    {
+        let srcs = cli::c08_sources();
+        let (accs, stats) = explore(
+            |ch| {
+                ch.choose("construct", 9);
+            },
+            |ch, acc: &mut Acc| {
+                let srcs = cli::c08_sources();
+                let ci = ch.choose("construct", srcs.len());
+                let n = 2 + ch.choose("nfiles", 3);
+                // which of the n files are bad: every non-empty subset of up to two positions
+                let first = ch.choose("bad_position", n);
+                let second = ch.choose("second_bad_position", n + 1); // n = none
+                let layout = ch.choose("layout", 3); // 0 single-file, 1 multi one crate, 2 multi one crate per file
+                let lang = *ch.pick("lang", &ALL_LANGS);
+                let mut files = Vec::new();
+                let mut bad_count = 0;
+                for i in 0..n {
+                    let crate_name = match layout {
+                        0 => String::new(),
+                        1 => "one".to_string(),
+                        _ => format!("c{i}"),
+                    };
+                    let source = if i == first {
+                        bad_count += 1;
+                        srcs[ci].1.replace("Good", "BadGood").replace("Outer", "BadOuter")
+                    } else if i == second {
+                        bad_count += 1;
+                        srcs[(ci + 1) % srcs.len()].1.replace("Good", "SecondGood").replace("Outer", "SecondOuter").replace("NAME", "SECOND_NAME")
+                    } else {
+                        crate::e3::good_source(&format!("g{i}"))
+                    };
+                    files.push(crate::pipeline::SrcFile { crate_name, path: format!("f{i}.rs"), source });
+                }
+                let mut cfg = Cfg::plain();
+                cfg.multi_file = layout != 0;
+                acc.judgements += 1;
+                acc.runs += 1;
+                acc.inputs.insert(report::fnv64(&format!("{ci}|{n}|{first}|{second}|{layout}")));
+                if first != 0 || n > 2 {
+                    acc.nontrivial.insert(report::fnv64(&format!("{ci}|{n}|{first}|{second}|{layout}")));
+                }
+                let o = crate::pipeline::run(&files, lang, &cfg);
+                acc.outcomes.insert(report::fnv64(o.kind()));
+                let shape = format!("construct={}|files={n}|bad_at={first}{}|layout={layout}", srcs[ci].0, if second < n && second != first { format!("+{second}") } else { String::new() });
+                let detail = |what: String| json!({"choices": ch.choices(), "lang": lang.name(), "files": files.iter().map(|f| json!({"crate": f.crate_name, "path": f.path, "source": f.source})).collect::<Vec<_>>(), "observation": what});
+                match &o {
+                    crate::pipeline::Outcome::ParseErrors(e) => {
+                        if e.len() < bad_count {
+                            acc.vios.add(Violation { sig: format!("C08|{}|fold-lost-errors|{shape}", lang.name()), detail: detail(format!("{} error(s) reported for {bad_count} offending files: {e:?}", e.len())) });
+                        }
+                    }
+                    other => acc.vios.add(Violation { sig: format!("C08|{}|fold-accepted:{}|{shape}", lang.name(), other.kind()), detail: detail(format!("{other:?}").chars().take(400).collect()) }),
+                }
+            },
+            Mode::Product,
+            2,
+            report::threads(),
+            u64::MAX,
+        );
+        merge(&mut rep, "fold_over_files", accs, &stats, json!({"constructs": srcs.iter().map(|c| c.0).collect::<Vec<_>>(), "files": "2..=4", "offending_files": "1 or 2, every position", "layouts": ["single-file", "multi-file one crate", "multi-file crate per file"], "languages": 6}));
+    }
     cli::c08_cli_family(&mut rep);
+    cli::c08_arrival_family(&mut rep);
     require_nonvacuous(&mut rep);
     rep.cov("rule", json!("every unsupported type planted under every carrier chain up to the stated depth at 9 positions × 3 skip states, plus 17 structural constructs; without a skip marker the real parser must record an error (the CLI run must fail and leave the output location untouched), with a skip marker the run must succeed and produce exactly the output of the program with the member deleted. non-trivial = nested position or skip marker present."));
     rep.assume("integer constant expressions whose value typeshare can represent (`-5`, `(9)`) may be accepted, but then the generated value must equal the Rust value");
